@@ -7,6 +7,7 @@ mod gen;
 mod rng;
 mod scen_buf;
 mod scen_exec;
+mod scen_gens;
 mod scen_graph;
 mod scen_grid;
 mod scen_loops;
@@ -66,6 +67,8 @@ fn main() {
                     &mut out,
                 ),
                 "steps" => scen_prog::run_steps(seed, tier, args.get(5).map(|s| s.as_str()).unwrap_or("*"), &mut out),
+                "gencode" => scen_gens::run_code(seed, tier, &mut out),
+                "genvals" => scen_gens::run_values(seed, tier, &mut out),
                 "graph" => scen_graph::run(seed, tier, &mut out),
                 "graph-exh" => scen_graph::run_exhaustive(if tier == "thorough" { 4 } else { 3 }, &mut out),
                 "topo" => scen_topo::run(seed, tier, &mut out),
